@@ -43,6 +43,8 @@ def skeletons(T):
         ('constraint-less', A.rule(None, ['%s < %s' % (A.tt(T), A.tt(Y)), q('q', Y)])),
         ('body-geq', A.rule(q('p', X), [q('q', X), '%s >= %s' % (A.tt(T), A.tt(Y)), q('q', Y)])),
         ('body-neq', A.rule(A.choice('p'), ['%s != %s' % (A.tt(T), 'a')])),
+        ('body-greater', A.rule(q('p', X), [q('q', X), '%s > %s' % (A.tt(Y), A.tt(T)), q('q', Y)])),
+        ('body-leq', A.rule(None, [q('q', X), '%s <= %s' % (A.tt(T), A.tt(X))])),
         ('constraint-arity2', A.rule(None, [q('q', T, T)])),
         ('prop-choice', A.rule(A.choice('p'), ['not ' + q('q', T)])),
     ]
@@ -198,6 +200,21 @@ def check_item(item):
                  replay={'request': render(('tau_star', Q(prog))), 'expected': render(('panic', str(e)))})
         return [r]
     program, theory, globals_, per_rule, out_text = resp
+    # the tree anthem's parser built must be the tree the language definition prescribes (independent reader)
+    from . import miniparse
+    try:
+        mine = miniparse.parse_program(prog)
+    except miniparse.Unsupported:
+        mine = None
+    except Exception:
+        mine = None
+    if mine is not None and render(mine) != render(program):
+        r = dict(base)
+        r.update(verdict='violation-concrete', signature='program-parse-tree',
+                 detail='anthem parses the program as %s but the language definition prescribes %s' % (render(program)[:500], render(mine)[:500]),
+                 replay={'request': render(('parse_program', Q(prog))), 'expected': render((program,))})
+        return [r]
+    base['parse_cross_checked'] = mine is not None
     if 'expected_term' in item and render(item['expected_term']) not in render(program):
         r = dict(base)
         r.update(verdict='violation-concrete', signature='program-parse-tree',
